@@ -89,8 +89,8 @@ impl<const P: i64> PrimeResidueClass<P> {
     //@ begin src/geometry/prime_residue_classes.rs :: impl<const P: i64> PrimeResidueClass<P> :: fn inverse
     //@ rw R16 /-> Self/-> (res: Self)/
     //@ rw R12 /let \(mut t, mut t1\) = /let (mut t, mut t1): (i64, i64) = /
-    //@ rw R1 /^(\s*)\(t, t1\) = (\(.*\));$/\1let tmp_t = \2; t = tmp_t.0; t1 = tmp_t.1;/
-    //@ rw R1 /^(\s*)\(r, r1\) = (\(.*\));$/\1let tmp_r = \2; r = tmp_r.0; r1 = tmp_r.1;/
+    //@ rw R1 /^([ \t]*)\(t, t1\) = (\(.*\));$/\1let tmp_t = \2; t = tmp_t.0; t1 = tmp_t.1;/
+    //@ rw R1 /^([ \t]*)\(r, r1\) = (\(.*\));$/\1let tmp_r = \2; r = tmp_r.0; r1 = tmp_r.1;/
     #[verifier::exec_allows_no_decreases_clause]
     fn inverse(self) -> (res: Self)
         requires self.val() != 0
@@ -442,7 +442,7 @@ impl<const P: i64> Div<PrimeResidueClass<P>> for PrimeResidueClass<P> {
 
     //@ begin src/geometry/prime_residue_classes.rs :: impl<const P: i64> Div<PrimeResidueClass<P>> for PrimeResidueClass<P> :: fn div
     //@ rw R16 /-> Self::Output/-> (r: Self::Output)/
-    //@ rw R14 /^(\s*)self \* (rhs\.inverse\(\))$/\1let __i = \2;\n\1self * __i/
+    //@ rw R14 /^([ \t]*)self \* (rhs\.inverse\(\))$/\1let __i = \2;\n\1self * __i/
     fn div(self, rhs: PrimeResidueClass<P>) -> (r: Self::Output)
         // the quotient: the unique residue q with q * rhs == self (mod P)
         ensures (r.val() * rhs.val()) % (P as int) == self.val()
@@ -465,7 +465,7 @@ impl<const P: i64> Div<PrimeResidueClass<P>> for &PrimeResidueClass<P> {
 
     //@ begin src/geometry/prime_residue_classes.rs :: impl<const P: i64> Div<PrimeResidueClass<P>> for &PrimeResidueClass<P> :: fn div
     //@ rw R16 /-> Self::Output/-> (r: Self::Output)/
-    //@ rw R9+R14 /^(\s*)self \* (rhs\.inverse\(\))$/\1let __i = \2;\n\1Mul::mul(self, __i)/
+    //@ rw R9+R14 /^([ \t]*)self \* (rhs\.inverse\(\))$/\1let __i = \2;\n\1Mul::mul(self, __i)/
     fn div(self, rhs: PrimeResidueClass<P>) -> (r: Self::Output)
         // the quotient: the unique residue q with q * rhs == self (mod P)
         ensures (r.val() * rhs.val()) % (P as int) == self.val()
@@ -488,7 +488,7 @@ impl<const P: i64> Div<&PrimeResidueClass<P>> for &PrimeResidueClass<P> {
 
     //@ begin src/geometry/prime_residue_classes.rs :: impl<const P: i64> Div<&PrimeResidueClass<P>> for &PrimeResidueClass<P> :: fn div
     //@ rw R16 /-> Self::Output/-> (r: Self::Output)/
-    //@ rw R9+R14 /^(\s*)self \* (rhs\.inverse\(\))$/\1let __i = \2;\n\1Mul::mul(self, __i)/
+    //@ rw R9+R14 /^([ \t]*)self \* (rhs\.inverse\(\))$/\1let __i = \2;\n\1Mul::mul(self, __i)/
     fn div(self, rhs: &PrimeResidueClass<P>) -> (r: Self::Output)
         // the quotient: the unique residue q with q * rhs == self (mod P)
         ensures (r.val() * rhs.val()) % (P as int) == self.val()
